@@ -13,7 +13,7 @@ for d in ${@:-$(ls seeded | grep '^C')}; do
   [ -f seeded/$d/patch.diff ] || continue
   prop=${d%%-*}
   git -C $W checkout -q -- . 
-  if ! git -C $W apply --3way seeded/$d/patch.diff >/var/tmp/reseed_apply.log 2>&1 && ! git -C $W apply seeded/$d/patch.diff >>/var/tmp/reseed_apply.log 2>&1; then
+  if ! git -C $W apply --3way /verif/seeded/$d/patch.diff >/var/tmp/reseed_apply.log 2>&1 && ! git -C $W apply /verif/seeded/$d/patch.diff >>/var/tmp/reseed_apply.log 2>&1; then
     echo "$d patch-does-not-apply" >> $OUT; continue
   fi
   git -C $W reset -q
